@@ -276,3 +276,71 @@ func genRawHistory(rng *Rng, emit func(*Scenario)) {
 		emit(sc)
 	}
 }
+
+// genTrailing: the device sends an asynchronous frame right BEHIND its answer, in the same chunk (a BMV does that every
+// second): the answer - a value or a refusal - is the answer, one command frame; the async frame is the next call's noise
+func genTrailing(prefix string, rng *Rng, emit func(*Scenario)) {
+	for _, addr := range []uint16{0xEDF0, 0x0100, uint16(rng.U64())} {
+		async := simFrame(0xA, []byte{byte(addr), byte(addr >> 8), 0, 0x2A, 0x00})
+		for _, fl := range []byte{0, 1, 2, 4} {
+			val := rng.Bytes(2)
+			ans := simGet(addr, fl, val)
+			for ki, kind := range getKinds {
+				one1 := append(append([]byte(nil), ans...), async...)
+				two := append(append(append([]byte(nil), ans...), async...), async...)
+				for si, rep := range [][][][]byte{{{one1}, {one1}}, {{ans, async}, {ans}}, {{two}, {two}, {two}}, {{async, one1}}} {
+					sc := getScenario(fmt.Sprintf("%s-async-behind-answer-flag%d-s%d", prefix, fl, si), kind, addr, rep)
+					sc.ExactWrites = []int{1}
+					sc.MaxWritesPerCall = 1
+					// a second call right away: it skips what the first one left behind
+					ref2, _ := refGet(addr, rep[1:])
+					_ = ref2
+					if len(rep) > 1 && ki%2 == 0 {
+						sc.Calls = append(sc.Calls, Call{Kind: kind, Addr: addr, Want: sc.Calls[0].Want})
+						sc.ExactWrites = append(sc.ExactWrites, 1)
+					}
+					emit(sc)
+				}
+			}
+		}
+	}
+}
+
+// genAppears: a register the device refused (unknown id, not supported) holds a value later - after a firmware update on an
+// open port, a paired sensor, a device that was still booting - and the other way round: each read is answered by what the
+// device says NOW, on the same driver object
+func genAppears(rng *Rng, emit func(*Scenario)) {
+	kinds := map[byte]string{1: "err:unknown-id", 2: "err:not-supported", 4: "err:parameter-error"}
+	for _, addr := range []uint16{0xEDF0, 0x0100, 0x2030, uint16(rng.U64())} {
+		for _, fl := range []byte{1, 2, 4} {
+			for _, kind := range getKinds {
+				v1, v2 := rng.Bytes(2), rng.Bytes(2)
+				sc := &Scenario{Tag: "register-appears-later", MaxWritesPerCall: 1, ExactWrites: []int{1, 1, 1, 1, 1, 1},
+					Replies: [][][]byte{one(simGet(addr, fl, nil)), one(simGet(addr, fl, nil)), one(simGet(addr, 0, v1)), one(simGet(addr, fl, nil)), one(simGet(addr, 0, v2)), one(simGet(addr, 0, v2))},
+					Calls: []Call{{Kind: kind, Addr: addr, Want: kinds[fl]}, {Kind: kind, Addr: addr, Want: kinds[fl]}, {Kind: kind, Addr: addr, Want: typedWant(kind, "ok:"+HEX(v1))},
+						{Kind: kind, Addr: addr, Want: kinds[fl]}, {Kind: kind, Addr: addr, Want: typedWant(kind, "ok:"+HEX(v2))}, {Kind: kind, Addr: addr, Want: typedWant(kind, "ok:"+HEX(v2))}}}
+				emit(sc)
+			}
+		}
+	}
+}
+
+// genSteadyTraffic: a line on which every exchange takes 30 ms (19200 baud) and calls follow each other without a pause: no
+// gap ever reaches 100 ms although the exchanges add up to much more, so nothing pending is ever dropped - a late answer in
+// front of the awaited one costs one more attempt and no more
+func genSteadyTraffic(rng *Rng, emit func(*Scenario)) {
+	addr := uint16(rng.U64())
+	sc := &Scenario{Tag: "steady-traffic-30ms-per-exchange", RDelay: map[int]int{}, MaxWritesPerCall: 8}
+	read := 0
+	for i := 0; i < 14; i++ {
+		a := addr + uint16(i)
+		v := []byte{byte(i), 0x10}
+		foreign := simGet(a^0x0100, 0, []byte{9})
+		sc.Replies = append(sc.Replies, [][]byte{foreign, simGet(a, 0, v)}, nil)
+		sc.RDelay[read] = 30 // the first read of the call waits for the device
+		read += 2            // attempt 1 reads the late answer, attempt 2 the awaited one (both in the buffer after one Read each)
+		sc.Calls = append(sc.Calls, Call{Kind: "uint", Addr: a, Want: typedWant("uint", "ok:"+HEX(v))})
+		sc.ExactWrites = append(sc.ExactWrites, 2)
+	}
+	emit(sc)
+}
